@@ -140,6 +140,19 @@ channel_release(struct channel* self)
 }
 
 void
+channel_reset(struct channel* self)
+{
+    lock_acquire(&self->lock);
+    self->head = 0;
+    self->high = 0;
+    self->mapped = 0;
+    self->cycle = 0;
+    self->holds.n = 0;
+    lock_release(&self->lock);
+    condition_variable_notify_all(&self->notify_space_available);
+}
+
+void
 channel_accept_writes(struct channel* self, uint32_t tf)
 {
     // The flag is part of the predicate a writer evaluates before sleeping on
